@@ -114,6 +114,11 @@ class Session:
         # a tilt element its owner keeps updating (a jitter loop), and a wavefront that went through it
         self.pool['T1'] = lentil.Tilt(x=1e-4, y=-2e-4)
         self.pool['W3'] = self.pool['W1'] * self.pool['T1']
+        # a dispersive element whose owner edits its coefficient arrays IN PLACE, and a wavefront that went through it; a wavefront
+        # through a plane whose FITTED tilt objects the owner trims afterwards (plane.tilt is a public list of Tilt objects)
+        self.pool['T2'] = lentil.DispersiveTilt(trace=[1., 0.], dispersion=[2.0 ** -3, 2.0 ** -7 - 2.0 ** -10])
+        self.pool['W4'] = self.pool['W1'] * self.pool['T2']
+        self.pool['W5'] = lentil.Wavefront(2.0 ** -7) * self.pool['P1']
         self.pool['I1'] = lentil.Image(amplitude=self.pool['A1'].copy(), opd=self.pool['O1'] * 2.0, mask=(m != 0).astype(int), pixelscale=0.5)
 
     # -- recording -----------------------------------------------------------------------------------
@@ -195,8 +200,14 @@ class Session:
             ('fit_tilt_copy', lambda: p['P1'].fit_tilt(inplace=False), ['P1'], ()),
             ('fit_tilt_inplace', lambda: p['P1'].fit_tilt(inplace=True), ['P1'], ()),
             ('plane_copy', lambda: p['P1'].copy(), ['P1'], ()),
+            # fitting in place on a SHALLOW copy of the plane is an edit of that copy
+            ('fit_tilt_inplace_on_shallow_copy', lambda: __import__('copy').copy(p['P1']).fit_tilt(inplace=True), ['P1'], ()),
             ('multiply_tilt_element', lambda: p['W1'] * p['T1'], ['W1', 'T1'], (), 'W3'),
             ('propagate_dft', lambda: l.propagate_dft(p['W3'], pixelscale=2.0 ** -6, shape=(4, 5), oversample=2), ['W3'], ('w3',)),
+            ('multiply_disp_element', lambda: p['W1'] * p['T2'], ['W1', 'T2'], (), 'W4'),
+            ('propagate_dft', lambda: l.propagate_dft(p['W4'], pixelscale=2.0 ** -6, shape=(4, 5), oversample=2), ['W4'], ('w4',)),
+            ('multiply_plane_keep', lambda: l.Wavefront(2.0 ** -7) * p['P1'], ['P1'], ('w5',), 'W5'),
+            ('propagate_dft', lambda: l.propagate_dft(p['W5'], pixelscale=2.0 ** -6, shape=(4, 5), oversample=2), ['W5'], ('w5',)),
             ('spectrum_to_unknown_unit', lambda: p['S2'].to('um', 'photlamm'), ['S2'], ()),
             # the caller goes on to EDIT the plane that fit_tilt(inplace=False) / copy() handed back: that is its own plane to edit
             ('fit_tilt_copy_then_edit', lambda: (lambda r: (setattr(r, 'opd', np.asarray(r.opd) * 0.0), setattr(r, 'amplitude', np.asarray(r.amplitude) * 2.0), 1)[-1])
@@ -270,6 +281,13 @@ class Session:
             # the owner of the tilt element steers it somewhere else (its documented attributes)
             nx = rng.choice((0.0, 5e-5, -3e-4))
             self.caller('caller_update', ['T1'], lambda: (setattr(p['T1'], 'x', nx), setattr(p['T1'], 'y', 2 * nx)))
+        if rng.random() < 0.1:
+            # ... or edits the coefficient arrays of its dispersive element in place
+            which, val = rng.choice((('dispersion', 2.0 ** -7 - 2.0 ** -9), ('dispersion', 2.0 ** -7), ('trace', 0.25), ('trace', 0.0)))
+            self.caller('caller_update', ['T2'], lambda: getattr(p['T2'], which).__setitem__(1, val))
+        if rng.random() < 0.1 and len(p['P1'].tilt) > 0:
+            # ... or trims the tilt that fit_tilt(inplace=True) recorded on its plane
+            self.caller('caller_update', ['P1'], lambda: setattr(p['P1'].tilt[0], 'x', p['P1'].tilt[0].x + 2e-6))
         if rng.random() < 0.1:
             # caller updates a plane attribute between calls (new OPD through the public setter)
             f = rng.choice((1.0, 2.0))
